@@ -1,6 +1,7 @@
 """C14 — field option letters decide the variant and are preserved."""
 from .common import Report
-from . import emit
+from . import emit, accept
+import re
 from . import grules, options
 
 LEVEL = "other"
@@ -9,7 +10,9 @@ EXPLANATION = ("Finite static evaluation: for every option enum used at a varian
                "the selected arm's constructor/parser pair is compared with the tag the variant's payload emits "
                "(O1); every Ok(E::V(x)) of the content heuristic is traced to <payload of V>::parse(input) (O2); "
                "the MessageParser call sites pass the detected letter (O3); emitted tag per variant (G5) and "
-               "detector letter coverage (G7) are shared with C02/C01.")
+               "detector letter coverage (G7) are shared with C02/C01; the accept condition and delivered variant of every "
+               "option enum parser are compared with the reviewed reference (U6/U7); the MessageParser variant "
+               "steps call no letterless parser.")
 ASSUMPTIONS = ["resolved callees (Instance::try_resolve) identify which payload parser an arm calls"]
 
 
@@ -27,4 +30,10 @@ def run(F, tier):
     rep.sample({"enum": "Field59", "arguments": ["None", 'Some("")', 'Some("A")', "..."],
                 "rule": "O1 evaluates the match arms statically"})
     emit.e1(rep, F, "fields")
+    # the content heuristics and letter dispatchers of the option enums: which variant is chosen under which
+    # condition, and what it carries, against the reviewed reference
+    enums = sorted(G_short for G_short in (t for t in ft.types if ft.is_enum(t)))
+    rx = re.compile(r"^<(%s) as traits::SwiftField>::parse(_with_variant)?$" % "|".join(re.escape(e) for e in enums))
+    accept.u6(rep, F, ("options", rx, 25))
+    accept.u7(rep, F, ("options", rx, 25))
     return rep
